@@ -59,7 +59,9 @@ check("C03",
       "Proof: StepFile.stepNext transcribes util.sh step_next (decision table proved for every list of rows incl. id gaps and skipped tails). "
       "OrchSeq models the sequential orchestrator write by write; Good(file, frontier) is proved to hold after EVERY prefix of the writes of a fresh "
       "invocation (or nothing but skipped steps is recorded and resume fails) and of any resumed invocation, for any exit codes and any number of "
-      "kill/resume cycles; resume_runs shows a resume starts exactly the non-skipped steps from the frontier, never an earlier one. The models are "
+      "kill/resume cycles; resume_runs shows a resume starts exactly the non-skipped steps from the frontier, never an earlier one. has_steps (what trap_exit "
+      "decides the invocation directory's fate from) is modelled too: the directory is kept iff step_next finds a resume point (dir_kept_iff_resumable), a terminated "
+      "or in-flight step keeps it and is where the run resumes (terminated_step_resumed). The models are "
       "compared with the real step_next (bash, real robsd-step) on generated files and with real canvas runs SIGKILLed after a generated write and resumed.",
       "Trusted: Lean kernel; bash -O lastpipe for ksh plus the shims of DESIGN 3.4; the slot abstraction of the step file is tied to the CSV by correspondence; sequential modes only.",
       "DESIGN.md#c03")
@@ -99,7 +101,8 @@ check("C10",
       "offset k yields exactly the suffix from step k and n+1 is rejected; per mode the code's fixed step names (first occurrences) equal the documented list of "
       "the man page and end with `end`, every script named is installed by the Makefile (decide on generated tables); the regress block is parallel tests in "
       "configuration order then the others, each as often as configured, none parallel when `parallel no` or flagged no-parallel; canvas = configured steps + end; "
-      "every listed name resolves. Model compared with robsd-step -L on generated configurations (ASan) and names resolved through robsd-exec.",
+      "every listed name resolves, to the first step carrying it and to itself when names are distinct (resolves_to_first, resolves_to_itself). Model compared with "
+      "robsd-step -L on generated configurations (ASan); robsd-exec, invoked the way util.sh step_exec does (form read from util.sh), must run the listed step's own command.",
       "Trusted: Lean kernel; translator (step tables, man page lists, Makefile SCRIPTS); config parsing of the generated files is the real parser's; harness.",
       "DESIGN.md#c10")
 
@@ -135,7 +138,9 @@ check("C04",
       "Proof: Orch.run models util.sh robsd() (ordered loop, job list, queue-full wait via robsd-wait, barrier, set -e, end) against an adversarial oracle (exit "
       "codes; which jobs each wait reaps). Orch.check states the property on a trace; run_accepted proves every model trace passes it (synchronous start and end only "
       "with nothing running, never more than ncpu running, skipped steps never start, nothing after a synchronous failure); run_result characterises failure exactly "
-      "(first failing non-skipped synchronous step; a failing parallel step never stops the run). Wait.run models robsd-wait.c (pid parsing, the insertion-ordered "
+      "(first failing non-skipped synchronous step; a failing parallel step never stops the run). Orch.runK is the same loop including the lock_alive test at the end of "
+      "the loop body (robsd-kill): without a kill it is run (runK_no_kill), with kills at arbitrary points every trace still passes the checker (runK_accepted), a "
+      "successful run never saw the lock dead (success_is_undisturbed), end is recorded only on success, nothing stays in flight (Props/C04Kill). Wait.run models robsd-wait.c (pid parsing, the insertion-ordered "
       "pid map, event batches, the -a loop): without -a it returns after the first batch with exactly the unreported pids in argument order (any_returns_rest), "
       "with -a only when every pid was reported (all_never_early); dup_hangs shows the duplicate-pid hang. Real canvas runs, with -d and detached (real robsd-wait "
       "via a kqueue shim, ROBSD_VERIF_NCPU 1-3, adversarial sleeps, step names with '/'), are checked against the property directly and by Orch.accepts; the real "
@@ -151,7 +156,9 @@ check("C11",
       "invocation failed or reached end. The lock file (Lock model of lock_acquire/lock_alive/lock_release/trap_exit/robsd-kill, C11Lock): an invocation arriving while "
       ".running names another one exits non-zero and leaves lock, reports and mails exactly as they were (second_refused); an invocation holds the lock under its own "
       "name from lock_acquire to the exit trap and it is gone afterwards (lock_names_then_gone); for every sequence of invocations each report is written into the "
-      "directory of the invocation it describes (report_own_directory); lock_alive fails once robsd-kill made the lock immutable (kill_seen); acquire_not_atomic records "
+      "directory of the invocation it describes (report_own_directory); lock_alive fails once robsd-kill made the lock immutable (kill_seen), yet the exit path it causes releases the lock, writes the terminated step's report to "
+      "the invocation's own directory and lets the next invocation in (killed_lock_released, after_kill_next_accepted; real robsd-kill runs with the immutable flag "
+      "emulated by shims are compared with Lock.killed and Orch.runK); acquire_not_atomic records "
       "that lock_acquire is a read followed by a write (outside the property's 'started meanwhile'). The implementation side is sampled: real canvas runs in foreground and background, resumed after a failure, and with a "
       "second fresh/resumed invocation started while the first holds the lock; records, skip records, logs and their content, hook calls, lock content during and "
       "after the run, report and captured mail are checked against the property; the refused invocation (fresh, resumed, resumed with a name that is a prefix of "
@@ -206,7 +213,9 @@ check("C07",
       "runner returns only after the main process is reaped or both bounded waits expired, with a non-zero status, 124 for the timeout (term_takes_effect, "
       "killwait_spec, kill_only_after_term, exit_nonzero_after_signal); without an event nothing is signalled and the exit status is the command's own "
       "(never_cut_short, exit_faithful); a request that arrives between the runner's look at its signal flag and the waitpid of the same iteration also takes "
-      "effect, also when that waitpid reaps the main process (late_signal_takes_effect). Correspondence: real robsd-exec on process trees (members ignoring SIGTERM, exiting early, a lingering main process that "
+      "effect, also when that waitpid reaps the main process (late_signal_takes_effect); step_fork's handshake is part of the model (stepExec): a request caught while "
+      "the runner waits for the process group is acted on first thing, a process group that never appears yields a non-zero status (handshake_signal_takes_effect, "
+      "handshake_failure_nonzero); the bounded waits use the constants regenerated from step-exec.c. Correspondence: real robsd-exec on process trees (members ignoring SIGTERM, exiting early, a lingering main process that "
       "starts a default-disposition member after the TERM wave, runner started with SIGTERM/SIGALRM ignored); SIGTERM while the step runs, right after fork() and "
       "right before the first waitpid(), and on entry to the waitpid that finds the main process already exited (shim), regress timeout; exit status, diagnostics, /proc state of every member and the completion marker are checked "
       "against the property and against the model.",
